@@ -333,6 +333,12 @@ def pass_interface():
             uses = len(re.findall(r"\b%s\b" % re.escape(n), text))
             known = len(re.findall(r"\b%s\s*\.\s*\w+\s*\(" % re.escape(n), text)) \
                 + len(re.findall(r"\b%s\s*:\s*&mut\s+(?:dyn|impl)\s+AnalysisContext" % re.escape(n), text))
+            # fourth audit (false alarm): the context handed on as a bare argument to a function DEFINED IN THE SAME FILE is
+            # fine — that helper's own `&mut dyn AnalysisContext` parameter is in `names` and its calls are examined too
+            local_fns = set(re.findall(r"\bfn\s+(\w+)", text))
+            for c2 in re.finditer(r"\b(\w+)\s*\(([^()]*)\)", text):
+                if c2.group(1) in local_fns and re.search(r"(?:^|,)\s*%s\s*(?:,|$)" % re.escape(n), c2.group(2)):
+                    known += 1
             if uses != known:
                 problems.append("pass %s: `%s` occurs %d times, only %d are the parameter or a method call" % (e, n, uses, known))
         # is_function / is_template / underlying_str read the ASTs and the file library only (&self)
@@ -378,10 +384,27 @@ def make_projects(ctx, base, n_lattice, n_sampled, big_counts=()):
         mb = decorate_structure(ctx.rng, st)
         cand.append(e2e.render_structure(st, tag="rich%d" % i, meta={"user_defs": user_defs_of_structure(st), "multibyte": mb,
                                                                      "extras": st.get("extras", [])}))
+    # fourth audit: more than 64 files (a 64-bit set of file ids, a cap on the files read): 70 NAMED files with a finding
+    # each (file ids 0..69 are user inputs), and one named file including 70 files with a finding each (ids 1..70 only included)
+    def flagged(name):
+        return "template %s(n) {\n    signal input in;\n    signal output out;\n    out <-- in * n;\n    out === in * n;\n}" % name
+    st = {"files": [{"name": "u%02d.circom" % i, "user": True, "pragma": True, "includes": [], "defs": [("template", "U%02d" % i, flagged("U%02d" % i))],
+                     "main": None} for i in range(70)]}
+    cand.append(e2e.render_structure(st, tag="richmany-named", meta={"user_defs": user_defs_of_structure(st), "many_files": 70}))
+    st = {"files": [{"name": "l%02d.circom" % i, "user": False, "pragma": True, "includes": [], "defs": [("template", "L%02d" % i, flagged("L%02d" % i))],
+                     "main": None} for i in range(70)] +
+                   [{"name": "top.circom", "user": True, "pragma": True, "includes": ["l%02d.circom" % i for i in range(70)],
+                     "defs": [("template", "Top", flagged("Top"))], "main": None}]}
+    cand.append(e2e.render_structure(st, tag="richmany-included", meta={"user_defs": user_defs_of_structure(st), "many_files": 71}))
     for i, (counts, extra) in enumerate(big_counts):
         st = big_structure(ctx.rng, counts, extra)
         cand.append(e2e.render_structure(st, tag="big%d" % i, meta={"user_defs": user_defs_of_structure(st), "big": list(counts)}))
     projects += cand
+    for p in cand:
+        # fourth audit: the named files spelled as relative paths on the command line of the binary
+        x = ctx.rng.random()
+        if x < 0.3 and "directory" not in p.meta.get("extras", []):
+            p.meta["spelling"] = "rel" if x < 0.18 else "dot"
     for i, p in enumerate(projects):
         p.write(base, i)
     truths = [e2e.Truth(t) for t in e2e.ground_truth(projects)]
@@ -643,6 +666,21 @@ def run(ctx, proofs):
             shape["independent_position_differs_from_in_process"] += ps.get("differs_from_in_process", 0)
             shape["multi_line_labels"] += ps.get("multiline", 0)
             shape["labels_with_multibyte_text_inside_their_range"] += ps.get("multibyte_inside", 0)
+        body = {"diagnostics_whose_body_was_compared": 0, "with_a_secondary_label": 0, "with_notes": 0, "unparsed_body_lines": 0,
+                "runs_compared": 0, "verbose_runs_compared": 0}
+        for r in runs:
+            bs = r.get("body_stats")
+            if bs:
+                body["runs_compared"] += 1
+                body["verbose_runs_compared"] += int(bool(r["verbose"]))
+                body["diagnostics_whose_body_was_compared"] += bs["compared"]
+                body["with_a_secondary_label"] += bs["with_secondary"]
+                body["with_notes"] += bs["with_notes"]
+                body["unparsed_body_lines"] += bs["unparsed_lines"]
+        shape["diagnostic_bodies"] = body
+        shape["runs_with_relative_spellings_of_the_named_files"] = len([r for r in runs if r.get("path_prefix")])
+        shape["runs_with_one_letter_options"] = len([r for r in runs if r.get("short")])
+        shape["runs_naming_the_curve"] = len([r for r in runs if r.get("curve")])
         near = [r for r in runs if r.get("near_miss")]
         near_nontrivial = 0
         for r in near:
@@ -701,7 +739,8 @@ def run(ctx, proofs):
                   or shape["reports_with_two_or_more_primary_labels"] < 5
                   or shape["reports_located_in_a_user_file_and_an_included_file"] < 1
                   or shape["extras"].get("minus-L", 0) < 3 or shape["extras"].get("directory", 0) < 3
-                  or near_nontrivial < 50 or shape["labels_positioned_independently"] < 10 * max(1, shape["labels_positioned_by_the_in_process_value"])):
+                  or near_nontrivial < 50 or body["with_a_secondary_label"] < 100 or body["with_notes"] < 1000
+                  or body["verbose_runs_compared"] < 100 or body["unparsed_body_lines"] > 0 or shape["labels_positioned_independently"] < 10 * max(1, shape["labels_positioned_by_the_in_process_value"])):
                 ctx.violation("generator degenerate (shapes added after the third audit): %s" % {k: v for k, v in shape.items() if k != "near_miss_allow_samples"},
                               {"broken": "add_extras of lib/e2e.py / decorate_definition of lib/props/C03.py", "shapes": shape}, no_input=True)
             elif len(lattice_idx) - ncorpus < n_lattice // 2 or len(id_hist) < 10 or len(levels_seen) < 3 or not labelless:
